@@ -11,6 +11,7 @@ A = E.AttributeType
 O = E.Operation
 P = E.Policy
 NEVER = '987654'
+M_SIGN, M_VERIFY = E.CryptographicUsageMask.SIGN, E.CryptographicUsageMask.VERIFY
 
 USERS = ['alice', 'bob', 'carol']
 GROUPSETS = [None, [], ['g1'], ['g2'], ['g1', 'g2'], ['gX']]
@@ -331,6 +332,29 @@ def run_case(ctx, case):
                         continue
                     objs.append(o)
                     creators[int(o.uid)] = owner
+            # key pairs made by CreateKeyPair, the Operation Policy Name given in the common template, in the template of one
+            # half, or in both with different values (the half's own template decides; the common one only fills gaps)
+            gen_names = [n for n in pols if n not in ('public',)]
+            for _ in range(3):
+                owner = rng.choice(USERS)
+                common_p, pub_p, priv_p = (rng.choice([None] + gen_names) for _ in range(3))
+                tag = '%s-pair-%04x' % (owner, rng.getrandbits(16))
+                mk = lambda p_, nm: ([rig.attr(A.OPERATION_POLICY_NAME, p_)] if p_ else []) + [rig.attr(A.NAME, name_value(nm), 0)]
+                try:
+                    r = srv.send([op_create_key_pair(common=[rig.attr(A.OPERATION_POLICY_NAME, common_p)] if common_p else [],
+                                                     pub=mk(pub_p, 'name-pub-' + tag), priv=mk(priv_p, 'name-priv-' + tag))], (owner, None), (1, 2))
+                except Exception:
+                    continue
+                if r.error is not None or not r.ok():
+                    ctx.count('setup_create_key_pair_failed')
+                    continue
+                for half, tagv, own_p, nm in (('priv', 0x420066, priv_p, 'name-priv-' + tag), ('pub', 0x42006F, pub_p, 'name-pub-' + tag)):
+                    u_ = rig.T.val(r.payload(), tagv)
+                    o = store.Obj(u_, half, owner, own_p or common_p or 'default', 'pre', [M_SIGN] if half == 'priv' else [M_VERIFY],
+                                  value=None, names=[nm])
+                    objs.append(o)
+                    creators[int(u_)] = owner
+                    ctx.count('key_pair_halves_under_template_policies')
             # one helper object per user for wrapping probes (own, active, wrap bit, public policy)
             helpers = {}
             for u in USERS:
